@@ -1392,7 +1392,7 @@ int QSexact_verify (
                MESSAGE(0, "Performing approximated solution check on %s, sucess=%s dobjval=%lg", 
                   p_mpq->name, 
                   *result ? "YES" : "NO",
-                  *result ? mpq_get_d(*dobjval) : mpq_get_d(*dobjval));
+                  dobjval ? mpq_get_d(*dobjval) : 0.0);
             }
          }
       CLEANUP:
@@ -1443,7 +1443,7 @@ int QSexact_verify (
             MESSAGE(0, "Performing approximated solution check on %s, sucess=%s dobjval=%lg", 
                p_mpq->name, 
                *result ? "YES" : "NO",
-               *result ? mpq_get_d(*dobjval) : mpq_get_d(*dobjval));
+               dobjval ? mpq_get_d(*dobjval) : 0.0);
          }
          mpq_EGlpNumFreeArray(x_mpq);
          mpq_EGlpNumFreeArray(y_mpq);
@@ -1460,7 +1460,7 @@ int QSexact_verify (
          MESSAGE(0, "Performing rational solution check on %s, sucess=%s dobjval=%lg", 
             p_mpq->name, 
             *result ? "YES" : "NO",
-            *result ? mpq_get_d(*dobjval) : mpq_get_d(*dobjval));
+            dobjval ? mpq_get_d(*dobjval) : 0.0);
       }
    }
 
